@@ -6,7 +6,7 @@ from ..engines import expandverified as X
 def run(ctx):
     # language-level slips in the modules the property is anchored in (engine Y)
     from ..engines import gotchas as GY
-    GY.run(ctx, ('specification', 'rule_db.forest', 'comb_spec_searcher'))
+    GY.run(ctx, ('strategies.rule', 'strategies.strategy', 'specification', 'rule_db.forest', 'comb_spec_searcher'))
     ctx.floor("Y", 1)
     ctx.extra["explanation"] = (
         "static analysis (ast, no execution) of expand_verified / expand_comb_class and of the "
@@ -56,3 +56,8 @@ def run(ctx):
     ctx.floor("T14", 2)
     X.x7_pack_refusal_is_what_is_caught(ctx)
     ctx.floor("X7", 1)
+    E.e13_reverse_switch_read_live(ctx)
+    ctx.floor("E13", 2)
+    from ..engines import sizecheck as SCC
+    SCC.s0_compositions(ctx)
+    ctx.floor("S0", 4)
